@@ -37,3 +37,9 @@ package extractor
 //@   ensures [C20] #fallback-ignores-markers implies(wcOf(callres(createWebDocumentInfoFromPage, 0)) < 500, result0 != callres(createWebDocumentInfoFromPage, 0) && convFlag(result0) == converter.Default)
 //@   ensures [C20] #first-pass-skips-unlikelies convFlag(callres(createWebDocumentInfoFromPage, 0)) == converter.SkipUnlikelies
 //@   ensures ce.Parser == old(ce.Parser) && wfParser(ce.Parser) && ce.documentElement == old(ce.documentElement) && ce.TimingInfo == old(ce.TimingInfo)
+
+// C15: the title heuristic starts from the VISIBLE text of the <title> element (white space normalised by
+// InnerText), and falls back to exactly that text or to the visible text of the first <h1>.
+//@ func getDocumentTitle(root, wc)
+//@   ensures [C15] #title-from-visible-title-text implies(root != nil && wc != nil && titleNode != nil, origTitle == old(domutil.InnerText(titleNode)))
+//@   ensures [C15] #no-title-element-no-title implies(root != nil && wc != nil && titleNode == nil, origTitle == "")
